@@ -390,15 +390,13 @@ Proof.
                   = cnt y ((x :: r) ++ hand_of disp ++ held wk ++ map r_task runs ++ map k_task cans ++ lost)).
   { intro y. rewrite Hh. cbn [app]. cnt_norm. lia. }
   constructor; unf; auto.
+  all: try solve [rewrite Hl; exact j_late0].
+  all: try solve [intros; exfalso; contradiction].
+  all: try solve [destruct close; auto; destruct j_close0 as (_ & _ & A & _); contradiction].
   - intro y. rewrite Hcnt. apply j_once0.
   - intros y Hy. apply j_pl_ok0. apply cnt_In. rewrite <- Hcnt. apply cnt_In. exact Hy.
   - intros y Hy. apply cnt_In. rewrite Hcnt. apply cnt_In. apply j_ok_pl0. exact Hy.
   - intros _. rewrite Hh. destruct (hand_of disp); discriminate.
-  - rewrite Hl. exact j_late0.
-  - intro E. contradiction.
-  - intros _ E. contradiction.
-  - intros _ E. contradiction.
-  - destruct close; auto. destruct j_close0 as (_ & _ & A & _). contradiction.
 Qed.
 
 (* cancelTasks: items leave the queue / the hand through the CancelAccepted hook *)
@@ -445,7 +443,6 @@ Proof.
   - cbn. lia.
   - discriminate.
   - discriminate.
-  - intros _. right. split; assumption.
   - intros Hb0 _. exfalso. unfold Model.WorkQueue_dpool.cr in Hcr. rewrite Hb0 in Hcr. discriminate.
   - destruct close; auto. destruct j_close0 as (_ & _ & A & _). contradiction.
 Qed.
@@ -475,6 +472,438 @@ Proof.
   - discriminate.
   - destruct close; auto. destruct j_close0 as (_ & _ & A & _). discriminate.
   - apply set_nth_ne.
+Qed.
+
+(* runBatch enters the handler *)
+Lemma inv_work_start b s i l : DInvB b s -> b < d_now s -> (i < length (d_wk s))%nat -> d_k s i = RGot l ->
+  DInv (d_set_k s i (RRun l (d_now s))).
+Proof.
+  intros HI Hb Hi Hk. apply (inv_mono b (d_now s)) in HI; [|lia]. destruct HI as [ ].
+  destruct s as [now closed stopped ctxdone used queue pcs disp wk close cb lost subs runs cans clos]. unf.
+  assert (Hcnt : forall y, cnt y (held (set_nth i (RRun l now) RIdle wk)) = cnt y (held wk)).
+  { intro y. pose proof (cnt_held_set_nth y i (RRun l now) wk Hi) as E. rewrite Hk in E. cbn [k_items] in E. lia. }
+  assert (Hc2 : forall y, cnt y (queue ++ hand_of disp ++ held (set_nth i (RRun l now) RIdle wk) ++ map r_task runs ++ map k_task cans ++ lost)
+                  = cnt y (queue ++ hand_of disp ++ held wk ++ map r_task runs ++ map k_task cans ++ lost)).
+  { intro y. rewrite !cnt_app, Hcnt. reflexivity. }
+  constructor; unf; auto.
+  - intros j l0 rb. rewrite nth_set_nth. destruct (Nat.eqb_spec i j); [|apply j_krun0].
+    intro E. inversion E; subst. lia.
+  - intro y. rewrite Hc2. apply j_once0.
+  - intros y Hy. apply j_pl_ok0. apply cnt_In. rewrite <- Hc2. apply cnt_In. exact Hy.
+  - intros y Hy. apply cnt_In. rewrite Hc2. apply cnt_In. apply j_ok_pl0. exact Hy.
+  - intros j. rewrite nth_set_nth. destruct (Nat.eqb_spec i j); [|apply j_k_len0].
+    specialize (j_k_len0 i). rewrite Hk in j_k_len0. exact j_k_len0.
+  - destruct close; auto. destruct j_close0 as (_ & _ & _ & A & _).
+    rewrite (all_idle_nth wk i Hi A) in Hk. discriminate.
+  - apply set_nth_ne.
+Qed.
+
+(* the handler returns *)
+Lemma inv_work_end b s i l rb : DInvB b s -> b < d_now s -> (i < length (d_wk s))%nat -> d_k s i = RRun l rb ->
+  let s' := d_set_k s i RIdle in
+  DInv (DSt (d_now s') (d_closed s') (d_stopped s') (d_ctxdone s') (d_used s') (d_queue s') (d_pcs s') (d_disp s') (d_wk s')
+          (d_close s') (d_cb s') (d_lost s') (d_subs s') (mk_runs l rb (d_now s) 0 ++ d_runs s') (d_cans s') (d_clos s')).
+Proof.
+  intros HI Hb Hi Hk. pose proof (j_krun _ _ HI i l rb Hk) as Hrb.
+  apply (inv_mono b (d_now s)) in HI; [|lia]. destruct HI as [ ].
+  destruct s as [now closed stopped ctxdone used queue pcs disp wk close cb lost subs runs cans clos]. unf.
+  assert (Hc2 : forall y, cnt y (queue ++ hand_of disp ++ held (set_nth i RIdle RIdle wk) ++ map r_task (mk_runs l rb now 0 ++ runs) ++ map k_task cans ++ lost)
+                  = cnt y (queue ++ hand_of disp ++ held wk ++ map r_task runs ++ map k_task cans ++ lost)).
+  { intro y. pose proof (cnt_held_set_nth y i RIdle wk Hi) as E. rewrite Hk in E. cbn [k_items] in E.
+    rewrite cnt_nil in E. cnt_norm. lia. }
+  constructor; unf; auto.
+  - intros r Hr. apply in_app_or in Hr. destruct Hr as [Hr|Hr]; [|apply j_runs0; exact Hr].
+    destruct (mk_runs_spec _ _ _ _ _ Hr) as (A & B & C & D). rewrite A, B. repeat split; try lia.
+    specialize (j_k_len0 i). rewrite Hk in j_k_len0. cbn [k_items] in j_k_len0.
+    unfold Model.WorkQueue_dpool.bmax in j_k_len0. lia.
+  - intros j l0 rb0. rewrite nth_set_nth. destruct (Nat.eqb_spec i j); [discriminate|apply j_krun0].
+  - intro y. rewrite Hc2. apply j_once0.
+  - intros y Hy. apply j_pl_ok0. apply cnt_In. rewrite <- Hc2. apply cnt_In. exact Hy.
+  - intros y Hy. apply cnt_In. rewrite Hc2. apply cnt_In. apply j_ok_pl0. exact Hy.
+  - intros j. rewrite nth_set_nth. destruct (Nat.eqb_spec i j); [cbn; lia|apply j_k_len0].
+  - destruct close; auto. destruct j_close0 as (_ & _ & _ & A & _).
+    rewrite (all_idle_nth wk i Hi A) in Hk. discriminate.
+  - apply set_nth_ne.
+Qed.
+
+(* Close *)
+Lemma inv_close_call b s : DInvB b s -> b < d_now s -> d_close s = CIdle ->
+  DInv (d_set_close s (d_closed s) (d_stopped s) (d_ctxdone s) (CStart (d_now s)) (d_now s) (d_clos s)).
+Proof.
+  intros HI Hb Hc. apply (inv_mono b (d_now s)) in HI; [|lia]. destruct HI as [ ].
+  destruct s as [now closed stopped ctxdone used queue pcs disp wk close cb lost subs runs cans clos]. unf. subst close.
+  destruct j_close0 as (A & B & C & D). subst.
+  constructor; unf; auto.
+  - intros _ Hd. rewrite Hd in j_late0. specialize (j_late0 eq_refl). discriminate.
+  - repeat split; auto. lia.
+  - lia.
+Qed.
+
+Lemma inv_close_store b s cb : DInvB b s -> d_close s = CStart cb ->
+  (is_batch = true -> any_locked (d_pcs s) = false) ->
+  DInvB b (d_set_close s true (if is_batch then true else d_stopped s) (d_ctxdone s) (CMid cb) (d_cb s) (d_clos s)).
+Proof.
+  intros [ ] Hc Hl.
+  destruct s as [now closed stopped ctxdone used queue pcs disp wk close cb0 lost subs runs cans clos]. unf. subst close.
+  destruct j_close0 as (A & B & C & D & E & F). subst.
+  constructor; unf; auto.
+  - intros _ t. destruct is_batch eqn:Hb.
+    + apply any_locked_false. apply Hl. reflexivity.
+    + specialize (j_pck0 t). destruct (nth t pcs PIdle) as [| | | |x st [|]]; try reflexivity.
+      cbn [pc_kind_ok] in j_pck0. congruence.
+  - intros Hx. discriminate.
+  - repeat split; auto. destruct is_batch; reflexivity.
+Qed.
+
+Lemma inv_close_mid b s cb : DInvB b s -> d_close s = CMid cb ->
+  DInvB b (d_set_close s (d_closed s) (if is_batch then d_stopped s else true)
+                       (if is_batch then d_ctxdone s || cr else d_ctxdone s) (CWait cb) (d_cb s) (d_clos s)).
+Proof.
+  intros [ ] Hc.
+  destruct s as [now closed stopped ctxdone used queue pcs disp wk close cb0 lost subs runs cans clos]. unf. subst close.
+  destruct j_close0 as (A & B & C & D & E & F). subst.
+  constructor; unf; auto.
+  - destruct is_batch; cbn [orb]; [|discriminate]. intro Hcr. split; [exact Hcr|reflexivity].
+  - repeat split; auto. destruct is_batch; reflexivity.
+Qed.
+
+Lemma inv_close_done b s cb : DInvB b s -> b < d_now s -> d_close s = CWait cb -> d_disp s = DExit ->
+  all_idle (d_wk s) = true ->
+  DInv (d_set_close s (d_closed s) (d_stopped s) (d_ctxdone s) CDone (d_cb s) (Clo cb (d_now s) true :: d_clos s)).
+Proof.
+  intros HI Hb Hc Hd Hidle. pose proof (inv_mono b (d_now s) s ltac:(lia) HI) as HM.
+  destruct HI as [ ]. destruct HM as [ ].
+  destruct s as [now closed stopped ctxdone used queue pcs disp wk close cb0 lost subs runs cans clos]. unf. subst close.
+  destruct j_close0 as (A & B & C & D & E). subst.
+  constructor; unf; auto.
+  repeat split; auto. exists now. repeat split; auto; try lia.
+  - intros r Hr. destruct (j_runs0 r Hr) as (_ & X & _). lia.
+  - intros k Hk. specialize (j_cans0 k Hk). lia.
+  - intros sb Hsb _. destruct (j_subs0 sb Hsb) as (_ & X & Y & _). lia.
+  - intros t st Hp. assert (Ht : exists x, pc_task (nth t pcs PIdle) = Some (x, st)).
+    { destruct (nth t pcs PIdle); try discriminate; cbn [pc_past pc_task] in *; inversion Hp; subst; eexists; reflexivity. }
+    destruct Ht as (x & Ht). destruct (j_pcs0 _ _ _ Ht) as (_ & X & _). lia.
+Qed.
+
+Lemma d_uq_id s : d_uq s (d_used s) (d_queue s) = s.
+Proof. destruct s; reflexivity. Qed.
+
+Lemma bmax_pos : (1 <= bmax)%nat.
+Proof. unfold Model.WorkQueue_dpool.bmax. lia. Qed.
+
+Ltac bnd := unfold DInv; cbn [d_now d_set_pc d_upd_pcs d_uq d_set_disp d_set_k d_set_close d_ret d_cancel d_drop]; lia.
+
+Lemma inv_thread_step s t alt : DInv s -> let s1 := d_tick s in DInv (d_thread_step cf s1 t alt).
+Proof.
+  intros HI0 s1. pose proof (inv_tick s HI0) as HB.
+  assert (Hb : d_now s < d_now s1) by (unfold s1; cbn; lia).
+  assert (HM : DInv s1) by (apply (inv_mono (d_now s)); [lia|exact HB]).
+  fold s1 in HB. unfold d_thread_step.
+  destruct (d_pc s1 t) as [|x st wait|x st wait|x st|x st locked] eqn:Hpc; [exact HM| | | |].
+  - destruct (d_closed s1) eqn:Hcl.
+    + rewrite <- (d_uq_id s1). apply (inv_ret_rej (d_now s)); auto; [rewrite Hpc; reflexivity|discriminate].
+    + rewrite <- (d_uq_id s1). apply (inv_mono (d_now s)); [bnd|].
+      apply inv_pc_move; auto; rewrite ?Hpc; try reflexivity; try exact I.
+  - destruct alt.
+    + destruct (d_stopped s1); [|exact HM].
+      rewrite <- (d_uq_id s1). apply (inv_ret_rej (d_now s)); auto; [rewrite Hpc; reflexivity|discriminate].
+    + destruct (d_used s1 <? dcap cf).
+      * apply (inv_mono (d_now s)); [bnd|]. apply inv_pc_move; auto; rewrite ?Hpc.
+        -- destruct is_batch; reflexivity.
+        -- destruct is_batch eqn:Hbt; cbn [pc_kind_ok]; congruence.
+        -- intros _. destruct is_batch; reflexivity.
+        -- intros st0 E. left. destruct is_batch; cbn [pc_past] in *; exact E.
+      * destruct (d_stopped s1); [exact HM|]. destruct wait; [exact HM|].
+        rewrite <- (d_uq_id s1). apply (inv_ret_rej (d_now s)); auto; [rewrite Hpc; reflexivity|discriminate].
+  - destruct (d_closed s1) eqn:Hcl.
+    + apply (inv_ret_rej (d_now s)); auto; [rewrite Hpc; reflexivity|discriminate].
+    + rewrite <- (d_uq_id s1). apply (inv_mono (d_now s)); [bnd|].
+      apply inv_pc_move; auto; rewrite ?Hpc; try reflexivity.
+      * cbn [pc_kind_ok]. pose proof (j_pck _ _ HM t) as K. rewrite Hpc in K. cbn [pc_kind_ok] in K. congruence.
+      * intro E. congruence.
+  - destruct alt.
+    + destruct (d_stopped s1); [|exact HM].
+      apply (inv_ret_rej (d_now s)); auto; [rewrite Hpc; reflexivity|discriminate].
+    + destruct (room cf s1).
+      * apply (inv_ret_ok (d_now s)); auto; rewrite ?Hpc; try reflexivity.
+        intro Hbt. pose proof (j_pck _ _ HM t) as K. rewrite Hpc in K. cbn [pc_kind_ok] in K.
+        destruct (d_closed s1) eqn:Hcl; [|reflexivity].
+        pose proof (j_lock _ _ HM Hcl t) as L. rewrite Hpc in L. rewrite K, Hbt in L. discriminate.
+      * destruct (d_stopped s1); [exact HM|].
+        apply (inv_ret_rej (d_now s)); auto; [rewrite Hpc; reflexivity|discriminate].
+Qed.
+
+Lemma should_cancel_true s : should_cancel cf s = true -> ca = true /\ d_closed s = true.
+Proof. unfold should_cancel. intro H. apply andb_true_iff in H. exact H. Qed.
+
+Ltac d_fin Hn Hlt :=
+  solve [ bnd | discriminate | reflexivity | assumption
+        | intros; apply Hn; reflexivity | apply Hn; reflexivity
+        | cbn [disp_late]; let E9 := fresh in intro E9; apply Hlt; exact E9
+        | intros; apply Hlt; reflexivity
+        | cbn [hand_of length]; rewrite ?app_length; cbn [length]; lia
+        | let y := fresh "y" in intro y; cbn [hand_of]; rewrite ?cnt_cons, ?cnt_nil; lia ].
+Ltac d_take s Hd Hn Hlt x r :=
+  apply (inv_mono (d_now s)); [bnd|]; apply (inv_disp_take _ _ x r); auto; rewrite ?Hd; try d_fin Hn Hlt.
+Ltac d_pcx s Hd Hn Hlt :=
+  apply (inv_mono (d_now s)); [bnd|]; apply inv_disp_pc; auto; rewrite ?Hd; try d_fin Hn Hlt.
+Ltac d_canc s Hd Hn Hlt :=
+  apply (inv_cancel (d_now s)); auto; rewrite ?Hd; try d_fin Hn Hlt.
+
+Lemma inv_disp_step s c : DInv s -> let s1 := d_tick s in DInv (d_disp_step cf s1 c).
+Proof.
+  intros HI0 s1. pose proof (inv_tick s HI0) as HB.
+  assert (Hb : d_now s < d_now s1) by (unfold s1; cbn; lia).
+  assert (HM : DInv s1) by (apply (inv_mono (d_now s)); [lia|exact HB]).
+  fold s1 in HB. unfold d_disp_step.
+  pose proof bmax_pos as Hbm.
+  destruct (d_disp s1) as [dr|h dr|h dr|h dr|h dr| |] eqn:Hd.
+  all: pose proof (j_hand_ne _ _ HM) as Hn; pose proof (j_late _ _ HM) as Hlt; rewrite Hd in Hn, Hlt;
+       cbn [disp_has_hand disp_late hand_of] in Hn, Hlt.
+  - (* DIdle *)
+    destruct dr.
+    + destruct (d_queue s1) as [|x r] eqn:Hq; [d_pcx s Hd Hn Hlt | d_take s Hd Hn Hlt x r].
+    + destruct c; try exact HM.
+      * destruct (d_queue s1) as [|x r] eqn:Hq; [exact HM|].
+        destruct (should_cancel cf s1) eqn:Hsc.
+        -- destruct (should_cancel_true _ Hsc) as (Hca & Hcl). d_canc s Hd Hn Hlt; rewrite ?Hq; try d_fin Hn Hlt.
+        -- d_take s Hd Hn Hlt x r.
+      * destruct (d_stopped s1) eqn:Hst; [|exact HM].
+        pose proof (j_stop _ _ HM Hst) as Hcl. destruct ca eqn:Hca; d_pcx s Hd Hn Hlt.
+  - (* DCollect *)
+    destruct c; try exact HM.
+    + destruct (d_queue s1) as [|x r] eqn:Hq; [exact HM|].
+      destruct (Nat.ltb_spec (length h) bmax) as [Hl|Hge]; [|exact HM]. d_take s Hd Hn Hlt x r.
+    + destruct (should_cancel cf s1) eqn:Hsc.
+      * destruct (should_cancel_true _ Hsc) as (Hca & Hcl). rewrite <- (d_uq_id s1). d_canc s Hd Hn Hlt.
+      * d_pcx s Hd Hn Hlt.
+  - (* DSubmit *)
+    destruct (should_cancel cf s1) eqn:Hsc.
+    + destruct (should_cancel_true _ Hsc) as (Hca & Hcl). rewrite <- (d_uq_id s1). d_canc s Hd Hn Hlt.
+    + d_pcx s Hd Hn Hlt.
+  - (* DInvoke *)
+    destruct c; try exact HM.
+    + destruct (d_queue s1) as [|x r] eqn:Hq; [exact HM|].
+      destruct (Nat.ltb_spec (length h) bmax) as [Hl|Hge]; [|exact HM]. d_take s Hd Hn Hlt x r.
+    + destruct (Nat.ltb_spec i (length (d_wk s1))) as [Hi|Hi]; [|exact HM].
+      destruct (d_k s1 i) eqn:Hk; try exact HM.
+      apply (inv_mono (d_now s)); [bnd|]. apply inv_invoke_ok; auto.
+    + d_pcx s Hd Hn Hlt.
+  - (* DRetry *)
+    destruct c; try exact HM.
+    + destruct (ca && d_stopped s1) eqn:Hcs; [|exact HM]. apply andb_true_iff in Hcs. destruct Hcs as (Hca & Hst).
+      pose proof (j_stop _ _ HM Hst) as Hcl. rewrite <- (d_uq_id s1). d_canc s Hd Hn Hlt.
+    + d_pcx s Hd Hn Hlt.
+    + destruct (d_ctxdone s1) eqn:Hctx; [|exact HM].
+      destruct (should_cancel cf s1) eqn:Hsc.
+      * destruct (should_cancel_true _ Hsc) as (Hca & Hcl). rewrite <- (d_uq_id s1). d_canc s Hd Hn Hlt.
+      * apply (inv_mono (d_now s)); [bnd|]. apply inv_drop; auto; rewrite ?Hd; try d_fin Hn Hlt.
+  - (* DCancelQ *)
+    assert (Hca : ca = true) by (apply (j_cq _ _ HM); exact Hd).
+    assert (Hcl : d_closed s1 = true) by (apply Hlt; reflexivity).
+    destruct (d_queue s1) as [|x r] eqn:Hq; [d_pcx s Hd Hn Hlt | d_canc s Hd Hn Hlt; rewrite ?Hq; try d_fin Hn Hlt].
+  - exact HM.
+Qed.
+
+Lemma inv_step s e : DInv s -> DInv (d_step s e).
+Proof.
+  intro HI0. pose proof (inv_tick s HI0) as HB. unfold Model.WorkQueue_dpool.d_step.
+  destruct e as [t wait|t alt|c|i| |]; [| apply inv_thread_step; exact HI0 | apply inv_disp_step; exact HI0 | | |].
+  all: set (s1 := d_tick s) in *; assert (Hb : d_now s < d_now s1) by (unfold s1; cbn; lia);
+       assert (HM : DInv s1) by (apply (inv_mono (d_now s)); [lia|exact HB]).
+  - destruct (d_pc s1 t) eqn:Hpc; try exact HM. apply (inv_call (d_now s)); auto.
+  - unfold d_work_step. destruct (Nat.ltb_spec i (length (d_wk s1))) as [Hi|Hi]; cbn [negb]; [|exact HM].
+    destruct (d_k s1 i) as [|l|l rb] eqn:Hk; [exact HM| |].
+    + apply (inv_work_start (d_now s)); auto.
+    + apply (inv_work_end (d_now s)); auto.
+  - destruct (d_close s1) eqn:Hc; try exact HM. apply (inv_close_call (d_now s)); auto.
+  - unfold d_close_step. destruct (d_close s1) as [|cb|cb|cb|] eqn:Hc; try exact HM.
+    + destruct is_batch eqn:Hbt.
+      * destruct (any_locked (d_pcs s1)) eqn:Hal; [exact HM|].
+        apply (inv_mono (d_now s)); [bnd|].
+        pose proof (inv_close_store (d_now s) s1 cb HB Hc) as X. rewrite Hbt in X. apply X. intros _. exact Hal.
+      * apply (inv_mono (d_now s)); [bnd|].
+        pose proof (inv_close_store (d_now s) s1 cb HB Hc) as X. rewrite Hbt in X. apply X. intro; discriminate.
+    + pose proof (inv_close_mid (d_now s) s1 cb HB Hc) as X.
+      destruct is_batch eqn:Hbt; (apply (inv_mono (d_now s)); [bnd|]); exact X.
+    + destruct (d_disp s1) eqn:Hd; try exact HM.
+      destruct (all_idle (d_wk s1)) eqn:Hid; [|exact HM].
+      apply (inv_close_done (d_now s)); auto.
+Qed.
+
+Hypothesis workers_pos : c_workers cf <> 0.
+
+Lemma nth_repeat_ridle i n : nth i (repeat RIdle n) RIdle = RIdle.
+Proof.
+  destruct (nth_In_or_default i (repeat RIdle n) RIdle) as [H|H]; [apply repeat_spec in H|]; exact H.
+Qed.
+
+Lemma held_repeat n : held (repeat RIdle n) = [].
+Proof. induction n; cbn; auto. Qed.
+
+Lemma inv_init : DInv (d_init cf).
+Proof.
+  unfold DInv, d_init. constructor; unf; rewrite ?held_repeat; cbn [hand_of app]; intros;
+    repeat match goal with
+           | H : context [nth _ (repeat RIdle _) RIdle] |- _ => rewrite nth_repeat_ridle in H
+           | H : context [nth ?t [] PIdle] |- _ => destruct t; cbn [nth pc_task pc_past] in H
+           | |- context [nth _ (repeat RIdle _) RIdle] => rewrite nth_repeat_ridle
+           | |- context [nth ?t [] PIdle] => destruct t; cbn [nth]
+           end;
+    try discriminate; try contradiction; try (constructor; fail); try (cbn; lia); auto.
+  all: try match goal with H : okset [] _ |- _ => destruct H as (sb & [] & _) end.
+  all: try (exfalso; congruence).
+  all: try (repeat split; reflexivity).
+  destruct (N.to_nat (c_workers cf)) eqn:E; [lia|]. discriminate.
+Qed.
+
+Lemma inv_fold evs : forall s, DInv s -> DInv (fold_left d_step evs s).
+Proof. induction evs as [|e evs IH]; intros s H; [exact H|]. cbn [fold_left]. apply IH. apply inv_step. exact H. Qed.
+
+Theorem inv_run evs : DInv (d_run evs).
+Proof. apply inv_fold. exact inv_init. Qed.
+
+(* ---- consequences --------------------------------------------------------------------------- *)
+
+Lemma d_at_most_once evs :
+  NoDup (map r_task (d_runs (d_run evs)) ++ map k_task (d_cans (d_run evs))).
+Proof.
+  pose proof (inv_run evs) as HI. apply NoDup_cnt. intro x. pose proof (j_once _ _ HI x) as H.
+  unfold places in H. rewrite !cnt_app in *. lia.
+Qed.
+
+Lemma d_terminal_in_places evs x :
+  In x (map r_task (d_runs (d_run evs)) ++ map k_task (d_cans (d_run evs))) -> In x (places (d_run evs)).
+Proof.
+  intro H. unfold places. apply cnt_In in H. apply cnt_In. rewrite !cnt_app in *. lia.
+Qed.
+
+Lemma d_rejected_never_runs evs sb :
+  In sb (d_subs (d_run evs)) -> s_res sb <> ROk ->
+  ~ In (s_task sb) (map r_task (d_runs (d_run evs)) ++ map k_task (d_cans (d_run evs))).
+Proof.
+  intros Hin Hr Hran. pose proof (inv_run evs) as HI.
+  destruct (j_pl_ok _ _ HI (s_task sb) (d_terminal_in_places evs _ Hran)) as (sb' & Hin' & Et & Er).
+  assert (sb' = sb) by (eapply NoDup_map_inj; [apply (j_subs_nd _ _ HI)|exact Hin'|exact Hin|exact Et]).
+  subst sb'. contradiction.
+Qed.
+
+Lemma d_cancel_only_if_configured evs : d_cans (d_run evs) <> [] -> ca = true.
+Proof. apply (j_cans_cfg _ _ (inv_run evs)). Qed.
+
+(* what Close's return guarantees for an admitted task *)
+Lemma d_close_waits evs c sb :
+  In c (d_clos (d_run evs)) -> In sb (d_subs (d_run evs)) -> s_res sb = ROk ->
+  let s := d_run evs in
+  (exists r, In r (d_runs s) /\ r_task r = s_task sb /\ r_e r < l_e c)
+  \/ (exists k, In k (d_cans s) /\ k_task k = s_task sb /\ k_at k < l_e c)
+  \/ (~ In (s_task sb) (map r_task (d_runs s) ++ map k_task (d_cans s))
+      /\ d_disp s = DExit /\ s_b sb < l_e c /\ l_b c = d_cb s
+      /\ (In (s_task sb) (d_queue s) \/ In (s_task sb) (d_lost s))).
+Proof.
+  intros Hc Hin Hr s. pose proof (inv_run evs) as HI. fold s in HI. pose proof (j_close _ _ HI) as HC.
+  unfold close_inv in HC. fold s in Hc, Hin.
+  destruct (d_close s).
+  - destruct HC as (_ & _ & _ & E). rewrite E in Hc. destruct Hc.
+  - destruct HC as (_ & _ & _ & E & _). rewrite E in Hc. destruct Hc.
+  - destruct HC as (_ & _ & _ & E & _). rewrite E in Hc. destruct Hc.
+  - destruct HC as (_ & _ & E & _). rewrite E in Hc. destruct Hc.
+  - destruct HC as (_ & _ & Hd & Hidle & ce & E & Hlt & _ & Hruns & Hcans & Hsubs & _). rewrite E in Hc.
+    destruct Hc as [<-|[]]. cbn [l_e l_b].
+    assert (Hpl : In (s_task sb) (places s)) by (apply (j_ok_pl _ _ HI); exists sb; auto).
+    pose proof (j_once _ _ HI (s_task sb)) as Honce.
+    unfold places in Hpl, Honce. rewrite Hd, (held_all_idle _ Hidle) in Hpl, Honce. cbn [hand_of app] in Hpl, Honce.
+    rewrite !cnt_app in Honce.
+    apply in_app_or in Hpl. destruct Hpl as [Hq|Hpl].
+    + right; right. repeat split; auto.
+      * intro Ht. apply cnt_In in Ht. apply cnt_In in Hq. rewrite cnt_app in Ht. lia.
+    + apply in_app_or in Hpl. destruct Hpl as [Hran|Hpl].
+      * left. apply in_map_iff in Hran. destruct Hran as (r & Er & Hr'). exists r. repeat split; auto.
+      * apply in_app_or in Hpl. destruct Hpl as [Hcan|Hl].
+        -- right; left. apply in_map_iff in Hcan. destruct Hcan as (k & Ek & Hk'). exists k. repeat split; auto.
+        -- right; right. repeat split; auto.
+           intro Ht. apply cnt_In in Ht. apply cnt_In in Hl. rewrite cnt_app in Ht. lia.
+Qed.
+
+Hypothesis kind_dp : c_kind cf = KPool \/ c_kind cf = KBatch.
+
+(* the known-finding code of the configuration (0 = none) *)
+Definition dcode : N := if is_batch then (if ca then 5 else if cr then 4 else 0) else 2.
+
+Lemma dcode_ne1 : dcode <> 1.
+Proof. unfold dcode. destruct is_batch, ca, cr; discriminate. Qed.
+
+Theorem d_monitor evs : allowed dcode (C37_monitor (d_hist (d_run evs))).
+Proof.
+  pose proof (inv_run evs) as HI. set (s := d_run evs) in *.
+  apply monitor_allowed; [exact dcode_ne1| | | | |].
+  - apply ok_once_intro. apply d_at_most_once.
+  - apply ok_rejected_intro. intros sb Hin Hr. apply d_rejected_never_runs; [exact Hin|].
+    intro E. rewrite E in Hr. discriminate.
+  - unfold ok_cancel_cfg, d_hist. cbn [h_cans h_cfg]. destruct (d_cans s) eqn:Ec; [reflexivity|].
+    assert (Hca : ca = true) by (apply (j_cans_cfg _ _ HI); rewrite Ec; discriminate). exact Hca.
+  - unfold ok_mailbox, d_hist. cbn [h_cfg]. destruct kind_dp as [E|E]; rewrite E; reflexivity.
+  - intros c Hc _ sb Hin Hr.
+    assert (Er : s_res sb = ROk) by (destruct (s_res sb); try discriminate; reflexivity).
+    destruct (d_close_waits evs c sb Hc Hin Er) as [(r & A & B & C)|[(k & A & B & C)|(Hnt & Hd & Hsb & Hcb & Hwhere)]].
+    + left. apply task_code_zero. eapply terminal_before_run; eauto.
+    + left. apply task_code_zero. eapply terminal_before_can; eauto.
+    + fold s in Hnt, Hd, Hcb, Hwhere. unfold task_code.
+      rewrite (terminal_before_false (d_hist s) _ _ Hnt), (has_terminal_false (d_hist s) _ Hnt).
+      unfold Model.WorkQueue_dpool.d_hist. cbn [h_cfg h_cans h_clos]. unfold dcode.
+      pose proof (j_lost _ _ HI) as Hlost. pose proof (j_exit_b _ _ HI) as Heb. pose proof (j_exit_p _ _ HI) as Hep.
+      assert (Hib : is_batch = kind_eqb (c_kind cf) KBatch) by reflexivity.
+      destruct kind_dp as [Ek|Ek]; rewrite Ek in *; cbn [kind_eqb] in Hib.
+      * (* pool *)
+        rewrite Hib. right.
+        assert (Hq : In (s_task sb) (d_queue s)).
+        { destruct Hwhere as [Hq|Hl]; [exact Hq|]. exfalso.
+          assert (Hne : d_lost s <> []) by (intro E0; rewrite E0 in Hl; destruct Hl).
+          destruct (Hlost Hne) as (_ & Hcr). unfold Model.WorkQueue_dpool.cr in Hcr. rewrite Hib in Hcr. discriminate. }
+        destruct (Hep Hib Hd _ Hq) as (sb' & Hin' & Et & _ & Hse).
+        assert (sb' = sb) by (eapply NoDup_map_inj; [apply (j_subs_nd _ _ HI)|exact Hin'|exact Hin|exact Et]). subst sb'.
+        replace (existsb (fun c' => (s_b sb <? l_e c') && (l_b c' <? s_e sb)) (d_clos s)) with true; [reflexivity|].
+        symmetry. apply existsb_exists. exists c. split; [exact Hc|].
+        apply andb_true_iff. split; apply N.ltb_lt; [exact Hsb|rewrite Hcb; exact Hse].
+      * (* batch *)
+        rewrite Hib.
+        assert (Eca : c_cancel_acc cf = ca) by (unfold Model.WorkQueue_dpool.ca; rewrite Hib; reflexivity).
+        assert (Ecr : c_cancel_run cf = cr) by (unfold Model.WorkQueue_dpool.cr; rewrite Hib; reflexivity).
+        rewrite Eca, Ecr.
+        destruct ca eqn:Hca.
+        -- right. assert (Hq : In (s_task sb) (d_queue s)).
+           { destruct Hwhere as [Hq|Hl]; [exact Hq|]. exfalso.
+             assert (Hne : d_lost s <> []) by (intro E0; rewrite E0 in Hl; destruct Hl).
+             destruct (Hlost Hne) as (X & _). discriminate. }
+           assert (Hqn : d_queue s <> []) by (intro E0; rewrite E0 in Hq; destruct Hq).
+           destruct (Heb Hib Hd Hqn) as [(_ & Hcn)|(X & _)]; [|discriminate].
+           destruct (d_cans s); [congruence|reflexivity].
+        -- destruct cr eqn:Hcr; [right; reflexivity|]. exfalso.
+           destruct Hwhere as [Hq|Hl].
+           ++ assert (Hqn : d_queue s <> []) by (intro E0; rewrite E0 in Hq; destruct Hq).
+              destruct (Heb Hib Hd Hqn) as [(X & _)|(_ & X)]; discriminate.
+           ++ assert (Hne : d_lost s <> []) by (intro E0; rewrite E0 in Hl; destruct Hl).
+              destruct (Hlost Hne) as (_ & X). discriminate.
+Qed.
+
+Theorem d_accepts evs : C37_mismatch (d_hist (d_run evs)) = false.
+Proof.
+  pose proof (inv_run evs) as HI. unfold C37_mismatch. apply negb_false_iff.
+  repeat (apply andb_true_iff; split).
+  - apply nodupb_NoDup. apply (j_subs_nd _ _ HI).
+  - apply forallb_forall. intros sb Hin. apply N.ltb_lt. apply (j_subs _ _ HI sb Hin).
+  - apply forallb_forall. intros r Hin. apply N.ltb_lt. apply (j_runs _ _ HI r Hin).
+  - apply forallb_forall. intros c Hc. apply N.ltb_lt. cbn [d_hist h_clos] in Hc.
+    pose proof (j_close _ _ HI) as HC. unfold close_inv in HC. destruct (d_close (d_run evs)).
+    + destruct HC as (_ & _ & _ & E). rewrite E in Hc. destruct Hc.
+    + destruct HC as (_ & _ & _ & E & _). rewrite E in Hc. destruct Hc.
+    + destruct HC as (_ & _ & _ & E & _). rewrite E in Hc. destruct Hc.
+    + destruct HC as (_ & _ & E & _). rewrite E in Hc. destruct Hc.
+    + destruct HC as (_ & _ & _ & _ & ce & E & Hlt & _). rewrite E in Hc. destruct Hc as [<-|[]]. exact Hlt.
+  - reflexivity.
+  - unfold batch_size_ok. apply forallb_forall. intros r Hin. apply N.ltb_lt. apply (j_runs _ _ HI r Hin).
+  - unfold shards_ok. apply forallb_forall. intros sb Hin. apply N.ltb_lt.
+    destruct (j_subs _ _ HI sb Hin) as (_ & _ & _ & E). rewrite E. lia.
 Qed.
 
 End DPoolProof.
